@@ -181,6 +181,7 @@ package strz
 //@     assert forall p in 0..len(b): escShape(b[p], p%6, 117) || p >= j+2
 
 //@ func verifOctalRoundTrip
+//@   relidx
 //@   ensures result2 == len(s) && forall k in 0..len(s): result1[k] == s[k]
 //@   at after-call2:
 //@     assert len(b) % 4 == 0 && len(b) / 4 == len(s) && len(d) == len(b) && !sameArray(d, b)
@@ -193,6 +194,7 @@ package strz
 //@     assert forall k in 0..len(s): d[k] == octVal(b, 4*k)
 
 //@ func verifHexRoundTrip
+//@   relidx
 //@   ensures result2 == len(s) && forall k in 0..len(s): result1[k] == s[k]
 //@   at after-call2:
 //@     assert len(b) % 4 == 0 && len(b) / 4 == len(s) && len(d) == len(b) && !sameArray(d, b)
